@@ -8,7 +8,8 @@ WT=$(mktemp -d /tmp/confirm.XXXXXX)
 export CARGO_TARGET_DIR=/tmp/confirm-target
 git -C /repo worktree add -q --detach "$WT/wt" HEAD || exit 2
 cd "$WT/wt"
-DEMO=$(python3 -c "import json,sys;print(json.load(open('$OUT/meta.json'))['demo_cmd'])" | sed "s#\$WORKTREE#$WT/wt#g; s#\$OUTDIR#$OUT#g; s#/tmp/mut-target#/tmp/confirm-target#g")
+ID=$(basename "$OUT")
+DEMO=$(python3 -c "import json,sys;print(json.load(open('$OUT/meta.json'))['demo_cmd'])" | sed "s#\$WORKTREE#$WT/wt#g; s#\$OUTDIR#$OUT#g; s#/tmp/mut-target#/tmp/confirm-target#g; s#/tmp/mutwt/$ID#$WT/wt#g; s#CARGO_TARGET_DIR=[^ ;&]*#CARGO_TARGET_DIR=/tmp/confirm-target#g")
 echo "demo_cmd: $DEMO"
 git apply --check "$OUT/patch.diff" || { echo "PATCH DOES NOT APPLY"; }
 # 1. baseline unit tests of the touched crates at HEAD
